@@ -174,10 +174,10 @@ func (e *engine) sectionLegacy(seed uint64) {
 			if hlib.Thorough() {
 				src.msgs = 5
 			} else {
-				src.msgs = 2
+				src.msgs = 3
 			}
 			e.o.Count("legacy-prim:" + fname)
-			e.primOps(src, hlib.NewRng(seed, "legacy/"+api))
+			e.safe(api, func() { e.primOps(src, hlib.NewRng(seed, "legacy/"+api)) })
 		}
 	}
 }
